@@ -32,7 +32,12 @@ A_VAL = ["[C]", "[=C]", "[#C]", "[N]", "[#N]", "[O]", "[=O]", "[F]", "[S]", "[=S
 A_CHG = ["[C+1]", "[=C-1]", "[N+1]", "[=N+1]", "[#N-1]", "[O+1]", "[=O-1]", "[CH2]", "[=CH1]", "[NH1]", "[Fe]",
          "[=Fe+2]", "[#Xe]", "[H]", "[#N+10]", "[=O-20]", "[Branch1]", "[#Branch1]", "[Ring1]", "[#Ring1]", "[\\/Ring1]", "."]
 A_CONT = ["[C]", "[N]", "[Branch1]", "[Ring1]", "[=Ring1]", "[#Ring1]"]     # rings competing for valences from both directions
-ALPHABETS = {"val": A_VAL, "chg": A_CHG, "contention": A_CONT}
+# deeper ring contention: the shortest strings in which a ring landing on an existing bond, or a second ring on the same pair,
+# changes what a later ring at that atom may still take have 10-11 symbols; only strings starting with the atom are enumerated
+A_RC1 = ["[C]", "[Branch1]", "[Ring1]", "[Ring2]"]
+A_RC3 = ["[C]", "[Branch1]", "[Ring1]", "[=Ring1]"]
+ATOM_FIRST = ("rc1", "rc3")
+ALPHABETS = {"val": A_VAL, "chg": A_CHG, "contention": A_CONT, "rc1": A_RC1, "rc3": A_RC3}
 
 HUGE = {"?": 1000}
 
@@ -114,6 +119,26 @@ def families(tier):
             body = "[C]" * max(0, q + 1 + extra - 3) + "[C][Ring1][Ring1]"
             bud.append(("Q=%d extra=%d" % (q, extra), "[C][Branch%d]" % len(d) + "".join(d) + body + "[O][=C][Ring1][Ring2]"))
     fams.append(("branch-budget", "default", bud))
+    # (7b) nested branch budgets: an outer branch of every budget around an inner branch whose *last* symbol is a ring or branch
+    # symbol (its index symbols then lie beyond the inner branch's end, inside or beyond the outer one), filler and a tail
+    nb = []
+    heads = ["[C][C][C][C]", "[S]"]
+    lasts = [("[Ring1]", 1), ("[=Ring1]", 1), ("[Ring2]", 2), ("[Branch1]", 1), ("[=Branch2]", 2), ("[Ring3]", 3)]
+    for head in heads:
+        for inner_body in ("", "[C]", "[C][=C]"):
+            n_in = inner_body.count("[") + 1                     # inner budget ends exactly on the ring / branch symbol
+            for last, L in lasts:
+                for digs in itertools.product(["[C]", "[Ring1]", "[Branch1]"], repeat=L):
+                    core = "[N]" + "[Branch1]" + misc.index_symbols(n_in - 1)[0] + inner_body + last + "".join(digs)
+                    rest = "[O][F][P][=O]"
+                    total = core.count("[") + 4
+                    for q_out in range(max(0, core.count("[") - L - 2), total + 1):
+                        if q_out > 15:
+                            continue
+                        st = head + "[Branch1]" + misc.index_symbols(q_out)[0] + core + rest + "[Cl][Br]"
+                        nb.append(("%s inner=%r last=%s%s outerQ=%d" % (head, inner_body, last, "".join(digs), q_out), st))
+    fams.append(("nested-budgets", "default", nb))
+    fams.append(("nested-budgets", "hypervalent", nb[::3]))
     # (8) long chains / many symbols
     longs = [("n=%d" % n, "[C][=C]" * n) for n in ((50, 200, 1000) if not thorough else (50, 200, 1000, 4000))]
     fams.append(("long", "default", longs))
@@ -126,18 +151,23 @@ def plan(tier, seed):
     if thorough:
         grid += [("val", "default", 6)] + [("val", t, 5) for t in tables.ALL if t != "default"]
         grid += [("chg", t, 5) for t in ("default", "hypervalent", "mix")] + [("chg", t, 4) for t in ("zero", "big", "octet_rule")]
-        grid += [("contention", "default", 9), ("contention", "octet_rule", 8)]
+        grid += [("contention", "default", 9), ("contention", "octet_rule", 8), ("rc1", "default", 12), ("rc3", "default", 12)]
     else:
         grid += [("val", "default", 5)] + [("val", t, 4) for t in tables.ALL if t != "default"]
         grid += [("chg", "default", 4), ("chg", "mix", 4), ("chg", "hypervalent", 4), ("contention", "default", 8)]
+        grid += [("rc1", "default", 11), ("rc3", "default", 10)]
     extras = [("chg", "big", 4), ("chg", "zero", 4), ("val", "mix", 5), ("chg", "octet_rule", 4)]
     grid.append(extras[seed % len(extras)])
     scopes, tasks = [], []
     for (an, tn, L) in grid:
         name = "%s/%s/L%d" % (an, tn, L)
         A = ALPHABETS[an]
-        scopes.append({"name": name, "alphabet": A, "table": tn, "bound_L": L, "tree_size": E1.tree_size(len(A), L)})
-        for sh in E1.shard_prefixes(A, L, 2):
+        scopes.append({"name": name, "alphabet": A, "table": tn, "bound_L": L,
+                       "tree_size": E1.tree_size(len(A), L) if an not in ATOM_FIRST else len(A) ** (L - 1) * len(A) // (len(A) - 1),
+                       **({"restricted_to": "strings that start with " + A[0]} if an in ATOM_FIRST else {})})
+        for sh in E1.shard_prefixes(A, L, 2 if an not in ATOM_FIRST else 3):
+            if an in ATOM_FIRST and not (sh[0] == "sub" and sh[1][0] == 0):
+                continue
             tasks.append((name, ("strings", an, tn, L, sh)))
     Lr = 4 if thorough else 3
     name = "robust-alphabet/default/L%d+rdkit" % Lr
